@@ -13,8 +13,9 @@ EXTENDS Naturals, Sequences, TLC
 
 CONSTANTS Params, MaxBlocks      \* MaxBlocks bounds the number of would-block results (keeps the model finite)
 
-VARIABLES par, bufs, wire, budget, waited, st, blocks
-vars == <<par, bufs, wire, budget, waited, st, blocks>>
+VARIABLES par, bufs, wire, budget, waited, st, blocks,
+          over      \* time the selector slept beyond what it was asked for (late wake-ups: the environment's doing, not the caller's)
+vars == <<par, bufs, wire, budget, waited, st, blocks, over>>
 
 RECURSIVE SumSeq(_)
 SumSeq(s) == IF s = <<>> THEN 0 ELSE Head(s) + SumSeq(Tail(s))
@@ -24,7 +25,7 @@ NonEmpty(s) == SelectSeq(s, LAMBDA x : x > 0)
 
 Init == /\ par \in Params
         /\ bufs = (IF par.mode = "join" THEN <<SumSeq(par.chunks)>> ELSE IF par.fixed THEN NonEmpty(par.chunks) ELSE par.chunks)
-        /\ wire = 0 /\ budget = par.budget /\ waited = 0 /\ st = "attempt" /\ blocks = 0
+        /\ wire = 0 /\ budget = par.budget /\ waited = 0 /\ st = "attempt" /\ blocks = 0 /\ over = 0
 
 \* adjust_leftover_buffer(buffers, n): "while nbytes > 0" -- leading empty views are NOT removed once n reaches 0
 RECURSIVE Adjust(_, _)
@@ -40,24 +41,26 @@ Accept(k) == /\ st = "attempt" /\ bufs # <<>>
                 THEN bufs' = (IF Offered = 0 \/ k = Head(bufs) THEN <<>> ELSE <<Head(bufs) - k>>)
                 ELSE bufs' = Adjust(bufs, k)
              /\ wire' = wire + k
-             /\ UNCHANGED <<par, budget, waited, st, blocks>>
+             /\ UNCHANGED <<par, budget, waited, st, blocks, over>>
 \* EAGAIN / EINTR
 Block == /\ st = "attempt" /\ bufs # <<>> /\ Offered > 0 /\ blocks < MaxBlocks
          /\ blocks' = blocks + 1
          /\ st' = (IF ~par.inf /\ budget = 0 THEN "timeout" ELSE "blocked")
-         /\ UNCHANGED <<par, bufs, wire, budget, waited>>
+         /\ UNCHANGED <<par, bufs, wire, budget, waited, over>>
 WaitTime == IF par.inf THEN par.ri ELSE IF par.ri = 0 THEN budget ELSE Min(budget, par.ri)    \* 0 stands for "no bound" when inf and ri = 0
-\* selector.select(wait): e = time that passed; not ready => the whole wait elapsed
+\* selector.select(wait): e = time that passed; not ready => the whole wait elapsed.  The selector may come back late (e > wait:
+\* poll rounding, the thread losing the CPU): the remaining budget never goes below zero, and the excess is not the caller's fault.
 Wait(e, ready) ==
   /\ st = "blocked"
   /\ IF par.inf /\ par.ri = 0
-     THEN ready /\ e \in 0..2 /\ st' = "attempt" /\ UNCHANGED budget
-     ELSE /\ e <= WaitTime /\ (~ready => e = WaitTime)
-          /\ budget' = (IF par.inf THEN budget ELSE budget - e)
+     THEN ready /\ e \in 0..2 /\ st' = "attempt" /\ UNCHANGED <<budget, over>>
+     ELSE /\ (~ready => e >= WaitTime)
+          /\ over' = over + (IF e > WaitTime THEN e - WaitTime ELSE 0)
+          /\ budget' = (IF par.inf THEN budget ELSE IF e >= budget THEN 0 ELSE budget - e)
           /\ st' = (IF ~ready /\ ~par.inf /\ (par.ri = 0 \/ budget <= par.ri) THEN "timeout" ELSE "attempt")
   /\ waited' = waited + e
   /\ UNCHANGED <<par, bufs, wire, blocks>>
-Return == st = "attempt" /\ bufs = <<>> /\ st' = "returned" /\ UNCHANGED <<par, bufs, wire, budget, waited, blocks>>
+Return == st = "attempt" /\ bufs = <<>> /\ st' = "returned" /\ UNCHANGED <<par, bufs, wire, budget, waited, blocks, over>>
 Done == st \in {"returned", "timeout"}
 Next == (\E k \in 0..Total : Accept(k)) \/ Block \/ (\E e \in 0..3, r \in BOOLEAN : Wait(e, r)) \/ Return \/ (Done /\ UNCHANGED vars)
 Spec == Init /\ [][Next]_vars /\ WF_vars(Next)
@@ -67,9 +70,9 @@ Spec == Init /\ [][Next]_vars /\ WF_vars(Next)
 WirePrefix == wire <= Total
 ExactOnReturn == st = "returned" => wire = Total
 \* C11: the time waited never exceeds the budget; a timeout means the budget is exhausted
-WithinBudget == ~par.inf => waited <= par.budget
+WithinBudget == ~par.inf => waited <= par.budget + over
 TimeoutMeansExhausted == st = "timeout" => ~par.inf /\ budget = 0
-ZeroNeverWaits == (~par.inf /\ par.budget = 0) => waited = 0
+ZeroNeverWaits == (~par.inf /\ par.budget = 0) => waited = 0 /\ over = 0
 \* the call always ends (returns or times out): no spinning, no blocking for ever
 Terminates == <>Done
 \* every loop iteration makes progress: bytes move, or a view disappears, or the call blocks (bounded by time)
